@@ -248,6 +248,223 @@ def _cv_nc_pairing():
     return _u(tr.value.slice), _u(te.value.slice)
 
 
+
+# -- round 4: in-place writes to caller data --------------------------------------------------------
+# `input_writes` = number of statements in the anchored functions (every function of
+# inference/crossvalsets.py, add_pattern_index, crossval, _internal_cv, cv_noise_ceiling and the three
+# RDMs selection methods the generators call) that store into an object reachable from one of the
+# function's parameters: subscript / attribute assignment, augmented assignment, `del`, a mutating
+# method (`sort`, `append`, ...), `np.random.shuffle(x)`, `np.copyto(x, ...)`, `out=x`.  The analysis is
+# flow-sensitive in the simplest way (statements in order, loop bodies twice, branches joined): a name
+# bound to a *view* of a parameter (attribute, subscript, slice, `np.asarray`, `.T`, `.reshape`, ...,
+# or the result of a same-module function that returns such a view) is an alias, a name re-bound to
+# the result of any other call (`np.unique`, `deepcopy`, `rdms.subsample`, a list comprehension) is
+# fresh.  `np.random.shuffle(rdm_select)` after `rdm_select = np.unique(rdm_select)` is therefore not a
+# write to the caller's descriptor; after `rdm_select = np.asarray(rdm_select)` it is.  Fail closed: a
+# function of the scope that is not found makes the leaf underivable.
+_VIEW_METHODS = {'transpose', 'reshape', 'swapaxes', 'view', 'ravel', 'squeeze', 'items', 'values', 'keys',
+                 'get', 'flat', 'astype_view'}
+_VIEW_FUNCS = {'np.asarray', 'np.asanyarray', 'np.transpose', 'np.swapaxes', 'np.reshape', 'np.squeeze',
+               'np.ravel', 'np.atleast_1d', 'np.atleast_2d', 'np.atleast_3d', 'np.expand_dims',
+               'np.diagonal', 'np.broadcast_to', 'enumerate', 'zip', 'iter', 'reversed', 'np.ascontiguousarray',
+               'np.asfortranarray', 'tuple'}
+_MUTATORS = {'sort', 'fill', 'resize', 'put', 'itemset', 'setfield', 'partition', 'append', 'extend',
+             'insert', 'remove', 'pop', 'popitem', 'clear', 'update', 'setdefault', 'reverse', 'setflags'}
+_MUT_FUNCS = {'np.copyto', 'np.put', 'np.put_along_axis', 'np.putmask', 'np.place', 'np.fill_diagonal',
+              'np.random.shuffle', 'random.shuffle', 'setattr', 'delattr'}
+_SCALAR_PARAMS = {'k', 'k_rdm', 'k_pattern', 'n_rdm', 'n_pattern', 'n_cv', 'random', 'method', 'by',
+                  'pattern_descriptor', 'rdm_descriptor', 'calc_noise_ceil', 'N', 'boot_type',
+                  'use_correction'}
+WRITE_SITES = []
+_WRITE_SCOPE = [(_F, None, None), ('util/rdm_utils.py', 'add_pattern_index', None),
+                (_E, 'crossval', None), (_E, '_internal_cv', None), (_E, '_concat_sampling', None),
+                ('inference/noise_ceiling.py', 'cv_noise_ceiling', None),
+                ('rdm/rdms.py', 'subset', 'RDMs'), ('rdm/rdms.py', 'subsample', 'RDMs'),
+                ('rdm/rdms.py', 'subset_pattern', 'RDMs')]
+
+
+def _tree(path):
+    return ast.parse(open(os.path.join(SRC, path)).read())
+
+
+def _names(t):
+    if isinstance(t, ast.Name):
+        return [t.id]
+    if isinstance(t, (ast.Tuple, ast.List)):
+        return [n for e in t.elts for n in _names(e)]
+    if isinstance(t, ast.Starred):
+        return _names(t.value)
+    return []
+
+
+class _Writes:
+    def __init__(self, module_funcs):
+        self.module_funcs = module_funcs      # name -> FunctionDef of the same module
+        self.ret_cache = {}
+
+    def is_alias(self, e, A):
+        if isinstance(e, ast.Name):
+            return e.id in A
+        if isinstance(e, (ast.Attribute, ast.Subscript, ast.Starred)):
+            return self.is_alias(e.value, A)
+        if isinstance(e, ast.Call):
+            f = _u(e.func)
+            args = list(e.args) + [k.value for k in e.keywords]
+            if isinstance(e.func, ast.Attribute) and e.func.attr in _VIEW_METHODS \
+                    and self.is_alias(e.func.value, A):
+                return True
+            if f in _VIEW_FUNCS and any(self.is_alias(a, A) for a in args):
+                return True
+            if f in self.module_funcs and any(self.is_alias(a, A) for a in args):
+                return self.returns_alias(f)
+            return False
+        if isinstance(e, (ast.Tuple, ast.List, ast.Set)):
+            return any(self.is_alias(x, A) for x in e.elts)
+        if isinstance(e, ast.IfExp):
+            return self.is_alias(e.body, A) or self.is_alias(e.orelse, A)
+        if isinstance(e, ast.BoolOp):
+            return any(self.is_alias(x, A) for x in e.values)
+        if isinstance(e, ast.NamedExpr):
+            return self.is_alias(e.value, A)
+        return False
+
+    def returns_alias(self, name):
+        if name not in self.ret_cache:
+            self.ret_cache[name] = True          # recursion: assume the worst
+            fn = self.module_funcs[name]
+            hits = []
+            self.run(fn, hits, returns=hits)
+            self.ret_cache[name] = any(h == 'return' for h in hits)
+        return self.ret_cache[name]
+
+    def bind(self, target, value_is_alias, A):
+        for n in _names(target):
+            (A.add if value_is_alias else A.discard)(n)
+
+    def check_expr(self, node, A, sites):
+        for n in ast.walk(node):
+            if isinstance(n, ast.Call):
+                f = _u(n.func)
+                if isinstance(n.func, ast.Attribute) and n.func.attr in _MUTATORS \
+                        and self.is_alias(n.func.value, A):
+                    sites.append((n.lineno, _u(n)))
+                if f in _MUT_FUNCS and n.args and self.is_alias(n.args[0], A):
+                    sites.append((n.lineno, _u(n)))
+                for k in n.keywords:
+                    if k.arg == 'out' and self.is_alias(k.value, A):
+                        sites.append((n.lineno, _u(n)))
+
+    def stmts(self, body, A, sites, returns):
+        for s in body:
+            self.stmt(s, A, sites, returns)
+
+    def stmt(self, s, A, sites, returns):
+        if isinstance(s, (ast.FunctionDef, ast.ClassDef)):
+            return
+        if isinstance(s, ast.Assign):
+            self.check_expr(s.value, A, sites)
+            al = self.is_alias(s.value, A)
+            for t in s.targets:
+                for tt in (t.elts if isinstance(t, (ast.Tuple, ast.List)) else [t]):
+                    if isinstance(tt, (ast.Subscript, ast.Attribute)):
+                        if self.is_alias(tt.value, A):
+                            sites.append((s.lineno, _u(s)))
+                    else:
+                        self.bind(tt, al, A)
+        elif isinstance(s, ast.AugAssign):
+            self.check_expr(s.value, A, sites)
+            if self.is_alias(s.target, A):
+                sites.append((s.lineno, _u(s)))
+            elif isinstance(s.target, ast.Name) and self.is_alias(s.value, A):
+                A.add(s.target.id)            # `lst += [view]`
+        elif isinstance(s, ast.AnnAssign):
+            if s.value is not None:
+                self.check_expr(s.value, A, sites)
+                if isinstance(s.target, (ast.Subscript, ast.Attribute)):
+                    if self.is_alias(s.target.value, A):
+                        sites.append((s.lineno, _u(s)))
+                else:
+                    self.bind(s.target, self.is_alias(s.value, A), A)
+        elif isinstance(s, ast.Delete):
+            for t in s.targets:
+                if isinstance(t, (ast.Subscript, ast.Attribute)) and self.is_alias(t.value, A):
+                    sites.append((s.lineno, _u(s)))
+        elif isinstance(s, (ast.For, ast.While)):
+            for _ in range(2):
+                if isinstance(s, ast.For):
+                    self.check_expr(s.iter, A, sites)
+                    if isinstance(s.iter, ast.Call) and _u(s.iter.func) == 'enumerate' \
+                            and isinstance(s.target, ast.Tuple) and len(s.target.elts) == 2:
+                        self.bind(s.target.elts[0], False, A)         # the counter is a fresh int
+                        self.bind(s.target.elts[1], self.is_alias(s.iter, A), A)
+                    else:
+                        self.bind(s.target, self.is_alias(s.iter, A), A)
+                else:
+                    self.check_expr(s.test, A, sites)
+                self.stmts(s.body, A, sites, returns)
+            self.stmts(s.orelse, A, sites, returns)
+        elif isinstance(s, ast.If):
+            self.check_expr(s.test, A, sites)
+            A1, A2 = set(A), set(A)
+            self.stmts(s.body, A1, sites, returns)
+            self.stmts(s.orelse, A2, sites, returns)
+            A.clear()
+            A.update(A1 | A2)
+        elif isinstance(s, (ast.With, ast.Try)):
+            for part in ('body', 'handlers', 'orelse', 'finalbody'):
+                for b in getattr(s, part, []):
+                    if isinstance(b, ast.ExceptHandler):
+                        self.stmts(b.body, A, sites, returns)
+                    else:
+                        self.stmt(b, A, sites, returns)
+        elif isinstance(s, ast.Return):
+            if s.value is not None:
+                self.check_expr(s.value, A, sites)
+                if returns is not None and self.is_alias(s.value, A):
+                    returns.append('return')
+        else:
+            self.check_expr(s, A, sites)
+            # a mutating method on a list that *contains* views keeps it an alias; an append of a view
+            # to a fresh list makes the list an alias
+            for n in ast.walk(s):
+                if isinstance(n, ast.Call) and isinstance(n.func, ast.Attribute) \
+                        and n.func.attr in ('append', 'extend', 'insert') and isinstance(n.func.value, ast.Name) \
+                        and any(self.is_alias(a, A) for a in n.args):
+                    A.add(n.func.value.id)
+
+    def run(self, fn, sites, returns=None):
+        A = {a.arg for a in fn.args.posonlyargs + fn.args.args + fn.args.kwonlyargs} - _SCALAR_PARAMS
+        self.stmts(fn.body, A, sites, returns)
+
+
+def _input_writes():
+    del WRITE_SITES[:]
+    n_fn = 0
+    for path, name, cls in _WRITE_SCOPE:
+        tree = _tree(path)
+        top = {n.name: n for n in tree.body if isinstance(n, ast.FunctionDef)}
+        if name is None:
+            fns = list(top.values())
+        elif cls is None:
+            if name not in top:
+                raise Underivable(f'{path}: function {name} not found')
+            fns = [top[name]]
+        else:
+            cdef = [n for n in tree.body if isinstance(n, ast.ClassDef) and n.name == cls]
+            fns = [m for c in cdef for m in c.body if isinstance(m, ast.FunctionDef) and m.name == name]
+            if len(fns) != 1:
+                raise Underivable(f'{path}: method {cls}.{name} not found')
+        w = _Writes(top)
+        for fn in fns:
+            n_fn += 1
+            sites = []
+            w.run(fn, sites)
+            WRITE_SITES.extend(f'{path}:{fn.name}:{ln}: {txt}' for ln, txt in sorted(set(sites)))
+    if n_fn < 16:
+        raise Underivable(f'only {n_fn} functions found in the write scope')
+    return str(len(WRITE_SITES))
+
+
 _KF = [('KFold', 'sets_k_fold', 'rdm_select'), ('KFoldRdm', 'sets_k_fold_rdm', 'rdm_select'),
        ('KFoldPattern', 'sets_k_fold_pattern', 'pattern_select')]
 
@@ -326,6 +543,10 @@ def _derive():
          _bootcv_guard)
     emit('nc_ceil_index', 'ncCeilIndex', ['i'], lambda: _cv_nc_pairing()[0])
     emit('nc_test_index', 'ncTestIndex', ['i'], lambda: _cv_nc_pairing()[1])
+    emit('input_writes', 'inputWrites', [], _input_writes)
+    out.append('# stores into caller data found by the analysis (input_writes counts these):')
+    out.extend('#   ' + w for w in WRITE_SITES)
+    out.append('')
 
     text = '\n'.join(out)
     if not (os.path.exists(DERIVED) and open(DERIVED).read() == text):
